@@ -8,7 +8,7 @@
    submissions, writer/reader/orphaner steps, the peer receiving and answering in any order,
    callers cancelling at any moment, breaks. *)
 From SV Require Import Base.Prelude Model.Streams Proofs.Streams_proofs.
-From SV Require Import Model.StreamsTrace Proofs.StreamsTrace_proofs.
+From SV Require Import Model.StreamsTrace Proofs.StreamsTrace_proofs Proofs.C02_d4_proofs.
 From SV Require Model.ConnFail.
 Open Scope N_scope.
 
@@ -501,6 +501,79 @@ Proof.
   exact (skew_done [ESub 1; ESub 2; EIn 0 1; EOut 0 1] 1 (ORows 1) (EIn 0 2) []).
 Qed.
 
+(* ================================================================ Deepening round 4 (proof only) *)
+(* The UnableToAllocStreamId clause of the acceptor, characterised.  [exhaust_ok a m] (evaluated by
+   the driver to name the unjustified outcome) holds for a submitted request m with that outcome iff
+   its frame never reached the peer and each of the 32768 stream ids was received by the peer with
+   ANOTHER request r, submitted before m's outcome, whose caller had no final answer before m's
+   submission ([exhaust_justified], written out here). *)
+Theorem C02_exhaust_spec : forall a m pm pdm,
+  mget m (a_sub a) = Some pm -> mget m (a_done a) = Some (pdm, OErrAlloc) ->
+  (exhaust_ok a m = true <->
+   mget m (a_recv a) = None /\
+   forall sid, sid < nids -> exists r ps,
+     r <> m /\ mget r (a_sub a) = Some ps /\ ps < pdm /\
+     (forall pd o, mget r (a_done a) = Some (pd, o) -> pm < pd) /\
+     mget r (a_recv a) = Some sid).
+Proof. exact exhaust_ok_spec. Qed.
+
+(* [final_ok] = every recorded UnableToAllocStreamId outcome of a submitted request is justified;
+   hence what [c02_trace_ok] is: the event checks pass and every such outcome is justified. *)
+Theorem C02_final_ok_spec : forall a,
+  final_ok a = true <->
+  forall m pm pdm, mget m (a_sub a) = Some pm -> mget m (a_done a) = Some (pdm, OErrAlloc) ->
+                   exhaust_justified a m pm pdm.
+Proof. exact final_ok_spec. Qed.
+
+Theorem C02_trace_final : forall evs,
+  c02_trace_ok evs = true <->
+  exists a, acc_run acc_init evs = Some a /\
+    forall m pm pdm, mget m (a_sub a) = Some pm -> mget m (a_done a) = Some (pdm, OErrAlloc) ->
+                     exhaust_justified a m pm pdm.
+Proof. exact trace_ok_final. Qed.
+
+(* What ACCEPTANCE means for the third clause, on event positions (companion of C02_trace_no_share
+   and C02_trace_delivery): a caller that got UnableToAllocStreamId at position pdm was submitted (at
+   pm), its request frame never reached the peer, and for each of the 32768 stream ids the peer
+   received a frame on that id carrying ANOTHER request r that was submitted before pdm and has no
+   outcome of its own at or before pm. *)
+Theorem C02_trace_alloc_fail : forall evs pdm m, c02_trace_ok evs = true ->
+  nth_error evs pdm = Some (EDone m OErrAlloc) ->
+  (forall sid, ~ In (EIn sid m) evs) /\
+  exists pm, nth_error evs pm = Some (ESub m) /\
+    forall sid, sid < nids -> exists r ps,
+      r <> m /\ nth_error evs ps = Some (ESub r) /\ (ps < pdm)%nat /\ In (EIn sid r) evs /\
+      forall pd o, nth_error evs pd = Some (EDone r o) -> (pm < pd)%nat.
+Proof. exact trace_ok_alloc_fail. Qed.
+
+(* which checker the driver evaluates on the implementation's results: [sm_applicable] is exactly
+   "no request id and no token allocated twice" (the premise of C02_sm_spec as a proposition) *)
+Theorem C02_sm_applicable_spec : forall ops,
+  sm_applicable ops = true <-> NoDup (alloc_rids ops) /\ NoDup (alloc_toks ops).
+Proof. exact sm_applicable_spec. Qed.
+
+(* the final-state comparison of the sm tie: [hm_into_handlers] lists exactly the handler table *)
+Theorem C02_into_handlers_spec : forall m sid rid tok,
+  In (sid, (rid, tok)) (hm_into_handlers m) <-> mget sid (hm_handlers m) = Some (rid, tok).
+Proof. exact into_handlers_spec. Qed.
+
+(* non-vacuity of C02_trace_alloc_fail / C02_exhaust_spec: 32769 requests submitted, 32768 of them
+   received on the ids 0 .. 32767, the last one refused -- accepted; with only 32767 received the
+   refusal is not justified -- rejected *)
+Example C02_ex_alloc_fail :
+  c02_trace_ok (full_history 32768) = true /\ In (EDone 32768 OErrAlloc) (full_history 32768) /\
+  c02_trace_ok (full_history 32767) = false.
+Proof.
+  split; [vm_compute; reflexivity|]. split; [|vm_compute; reflexivity].
+  unfold full_history. apply in_or_app. right. apply in_or_app. right. now left.
+Qed.
+
+Example C02_ex_applicable :
+  sm_applicable [OpAlloc 1 10; OpLookup 0; OpAlloc 2 11] = true /\
+  sm_applicable [OpAlloc 1 10; OpAlloc 1 11] = false /\ sm_applicable [OpAlloc 1 10; OpAlloc 2 10] = false /\
+  hm_into_handlers (fst (hm_run hm_new [OpAlloc 7 10; OpAlloc 8 11; OpOrphan 7])) = [(1, (8, 11))].
+Proof. repeat split; vm_compute; reflexivity. Qed.
+
 Print Assumptions C02_bitmap_alloc.
 Print Assumptions C02_bitmap_full.
 Print Assumptions C02_bitmap_free.
@@ -547,3 +620,9 @@ Print Assumptions C02_skew_observes.
 Print Assumptions C02_bracket_accepts.
 Print Assumptions C02_alloc_fresh_always.
 Print Assumptions C02_old_ids_age.
+Print Assumptions C02_exhaust_spec.
+Print Assumptions C02_final_ok_spec.
+Print Assumptions C02_trace_final.
+Print Assumptions C02_trace_alloc_fail.
+Print Assumptions C02_sm_applicable_spec.
+Print Assumptions C02_into_handlers_spec.
